@@ -1745,3 +1745,51 @@ mutant("c19-queue-read-before-swap", "C19", "C19-D7", "engine.io/server_socket.g
 	s.transport = t
 	old.Discard()
 """)
+
+# ---------------------------------------------------------------- C03 (round 3)
+mutant("c03-ack-id-read-then-advanced-later", "C03", "C03-D6", "namespace.go",
+       """	id := n.ackID
+	n.ackID++
+	return id
+}""",
+       """	return n.ackID
+}
+
+func (n *Namespace) useAckID(id uint64) {
+	n.ackMu.Lock()
+	defer n.ackMu.Unlock()
+	n.ackID = id + 1
+}""")
+mutant("c03-volatile-discarded-before-ack-registered", "C03", "C03-D6", "client_socket.go",
+       """	f := v[len(v)-1]
+	rt := reflect.TypeOf(f)
+	if f != nil && rt.Kind() == reflect.Func {
+		ackID := s.registerAckHandler(f, timeout)""",
+       """	if volatile {
+		s.stateMu.RLock()
+		discard := s.state == clientSocketConnStateDisconnected
+		s.stateMu.RUnlock()
+		if discard {
+			return
+		}
+	}
+
+	f := v[len(v)-1]
+	rt := reflect.TypeOf(f)
+	if f != nil && rt.Kind() == reflect.Func {
+		ackID := s.registerAckHandler(f, timeout)""")
+
+# ---------------------------------------------------------------- C04 / C05 (round 3)
+mutant("c04-local-drops-excluded-rooms", "C04", "C04-D6", "adapter/broadcast_operator.go",
+       """	n := *b
+	n.flags.Local = true
+	return &n""",
+       """	n := NewBroadcastOperator(b.nsp, b.adapter, b.isEventReserved)
+	n.rooms = b.rooms
+	n.flags = BroadcastFlags{Compress: b.flags.Compress, Local: true}
+	return n""")
+mutant("c05-active-only-after-connect-reply", "C05", "C05-D9", "client_socket.go",
+       "	s.activeMu.Lock()\n	s.active = true\n	s.manager.openHandlers.onSubEvent(&openFunc)", "	s.activeMu.Lock()\n	s.manager.openHandlers.onSubEvent(&openFunc)")
+MUTANTS[-1]["then"] = ("	s.debug.Log(\"Socket connected\")\n", "	s.activeMu.Lock()\n	s.active = true\n	s.activeMu.Unlock()\n	s.debug.Log(\"Socket connected\")\n")
+mutant("c05-frames-enqueued-one-by-one", "C05", "C05-D9", "server_conn.go",
+       "		c.packet(packets...)\n", "		for _, pk := range packets {\n			c.packet(pk)\n		}\n")
